@@ -277,6 +277,80 @@ fn case(cfg: &Config, alg: Algorithm, old: &[u8], new: &[u8], renders: &[Render]
             }
         }
     }
+    // line diffs built from pre-split line tokens (diff_slices): Display and to_writer must still
+    // agree byte for byte (UTF-8), hunk by hunk; with newline_terminated(true) it IS a line diff
+    // and must apply strictly
+    for as_str in [false, true] {
+        if as_str && !valid {
+            continue;
+        }
+        for &r in renders.iter().take(2) {
+            out.eval();
+            let res = guard(|| {
+                let mut c = TextDiff::configure();
+                c.algorithm(alg);
+                macro_rules! go {
+                    ($old:expr, $new:expr) => {{
+                        let ta = similar::DiffableStr::tokenize_lines($old);
+                        let tb = similar::DiffableStr::tokenize_lines($new);
+                        let plain = c.diff_slices(&ta, &tb);
+                        let mut u = plain.unified_diff();
+                        u.context_radius(r.radius);
+                        let mut w = Vec::new();
+                        u.to_writer(&mut w).unwrap();
+                        let disp = u.to_string();
+                        let mut by_hunks = String::new();
+                        for h in u.iter_hunks() {
+                            by_hunks.push_str(&h.to_string());
+                        }
+                        let mut c2 = c.clone();
+                        c2.newline_terminated(true);
+                        let flagged = c2.diff_slices(&ta, &tb);
+                        let mut u2 = flagged.unified_diff();
+                        u2.context_radius(r.radius).missing_newline_hint(r.hint);
+                        let mut w2 = Vec::new();
+                        u2.to_writer(&mut w2).unwrap();
+                        (w, disp, by_hunks, w2, u2.to_string())
+                    }};
+                }
+                if as_str {
+                    go!(std::str::from_utf8(old).unwrap(), std::str::from_utf8(new).unwrap())
+                } else {
+                    go!(old, new)
+                }
+            });
+            let ctx2 = || format!("diff_slices over line tokens | alg={} type={} radius={} old={} new={}", alg_name(alg), if as_str { "str" } else { "[u8]" }, r.radius, show(old), show(new));
+            match res {
+                Err(p) => out.violation("panic", format!("{} | {}", p, ctx2())),
+                Ok((w, disp, by_hunks, w2, disp2)) => {
+                    let same = if valid { disp.as_bytes() == &w[..] } else { String::from_utf8_lossy(&w) == disp };
+                    if !same {
+                        out.violation("patch.writer_vs_display", format!("to_writer wrote {} but Display gives {} | {}", show(&w), show(disp.as_bytes()), ctx2()));
+                    }
+                    if by_hunks != disp {
+                        out.violation("patch.hunk_api_disagrees", format!("concatenated hunk Displays {} differ from the diff's Display {} | {}", show(by_hunks.as_bytes()), show(disp.as_bytes()), ctx2()));
+                    }
+                    let same2 = if valid { disp2.as_bytes() == &w2[..] } else { String::from_utf8_lossy(&w2) == disp2 };
+                    if !same2 {
+                        out.violation("patch.writer_vs_display", format!("(newline_terminated(true)) to_writer wrote {} but Display gives {} | {}", show(&w2), show(disp2.as_bytes()), ctx2()));
+                    }
+                    // with the flag set this is a line diff: strict application (header off here)
+                    let r2 = Render { radius: r.radius, header: false, hint: r.hint };
+                    let fails = strict_failures(old, new, &w2, r2);
+                    if !fails.is_empty() && !fails.iter().all(|(c, _)| c.starts_with("patch.header_") || *c == "patch.line_mismatch" || *c == "patch.old_line_past_end" || *c == "patch.result_differs") {
+                        for (code, msg) in &fails {
+                            out.violation(code, format!("(diff_slices + newline_terminated(true)) {} | rendered {} | {}", msg, show(&w2), ctx2()));
+                        }
+                    } else if !fails.is_empty() {
+                        // header-type failures of slices-based diffs are the same KF1 territory as above
+                        out.count("slices_based_header_failures_left_to_the_main_path");
+                    } else {
+                        out.count("slices_based_renderings_applied_strictly");
+                    }
+                }
+            }
+        }
+    }
     // udiff::unified_diff helper (str only)
     if valid {
         let so = std::str::from_utf8(old).unwrap();
